@@ -243,10 +243,16 @@ impl Source {
                         Source::Ipfs(source)
                     }
                     (None, Some(version), _, _) => {
-                        let namespace = det.namespace.as_ref().map_or_else(
-                            || reg::file_location::Namespace::Flat,
-                            |ns| reg::file_location::Namespace::Domain(ns.to_string()),
-                        );
+                        // An empty namespace is the flat namespace: it is located like one and
+                        // the lock file cannot tell the two apart.
+                        let namespace = det
+                            .namespace
+                            .as_ref()
+                            .filter(|ns| !ns.is_empty())
+                            .map_or_else(
+                                || reg::file_location::Namespace::Flat,
+                                |ns| reg::file_location::Namespace::Domain(ns.to_string()),
+                            );
                         Source::with_version_dependency(dep_name, version, &namespace)?
                     }
                     _ => {
